@@ -6,7 +6,7 @@
  *   byte strings in hex, "-" = empty, "~" = NULL
  * Commands: A <hex text>             nice_address_set_from_string, then to_string / is_private / is_linklocal
  *           T <address>              to_string, classification, from_string (to_string)
- *           E <address> <address>    nice_address_equal, _equal_no_port, equality of the texts
+ *           E <address> <address>    nice_address_equal, _equal_no_port, equality of the texts, then both swapped
  *           G <candidate>            generate_local_candidate_sdp then parse_remote_candidate_sdp of the line
  *           P <hex line>             parse_remote_candidate_sdp
  *           R <hex sdp>              parse_remote_stream_sdp
@@ -133,7 +133,8 @@ int main (void)
       addr_of_tok (ta, &a); addr_of_tok (tb, &b);
       char sa[INET6_ADDRSTRLEN] = "", sb[INET6_ADDRSTRLEN] = "";
       nice_address_to_string (&a, sa); nice_address_to_string (&b, sb);
-      printf ("%d %d %d", nice_address_equal (&a, &b) ? 1 : 0, nice_address_equal_no_port (&a, &b) ? 1 : 0, !strcmp (sa, sb));
+      printf ("%d %d %d %d %d", nice_address_equal (&a, &b) ? 1 : 0, nice_address_equal_no_port (&a, &b) ? 1 : 0, !strcmp (sa, sb),
+              nice_address_equal (&b, &a) ? 1 : 0, nice_address_equal_no_port (&b, &a) ? 1 : 0);
     } else if (!strcmp (cmd, "G")) {
       NiceCandidate *c = cand_of_tok (strtok_r (NULL, " \n", &sv));
       gchar *l = nice_agent_generate_local_candidate_sdp (ag, c);
